@@ -151,6 +151,7 @@ static void c04_run(uint64_t seed, uint64_t index, bool thorough) {
             }
             std::string hs = head.head_str(), os = ops_str(ops);
             status_head(hs); status_ops(os);
+            plan_dump_maybe(hs + os);
             int rc = 0; size_t cons = 0;
             Verdict v = exec_plan(td, sy, D, ops, &rc, &cons);
             G.add("c04.decodes");
